@@ -135,9 +135,9 @@ def _config(rng, tier, focus):
     long_run = rng.random() < 0.02
     return {'n_slots': rng.randint(1, 5),
             'n_events': rng.randint(150, 300) if long_run else rng.randint(5, 40 if tier == 'quick' else 90),
-            'p_medium': rng.choice([0.0, 0.05, 0.1, 0.3]),
+            'p_medium': rng.choice([0.0, 0.05, 0.1, 0.3] if tier == 'quick' else [0.0, 0.1, 0.3, 0.6]),
             'p_wide': rng.choice([0.0, 0.1, 0.2, 0.5]),
-            'max_n': rng.randint(3, 7), 'max_m': rng.randint(3, 7),
+            'max_n': rng.randint(3, 7 if tier == 'quick' else 9), 'max_m': rng.randint(3, 7 if tier == 'quick' else 9),
             'p_reuse_labels': rng.choice([0.3, 0.6, 0.9]),
             'simset': rng.random() < 0.5, 'weights': w, 'focus': focus,
             'fault_free': not any(enabled.values())}
